@@ -1,6 +1,7 @@
 import Gofasta.Driver.Proto
 import Gofasta.Model.Pipeline
 import Gofasta.Model.Sched
+import Gofasta.Model.SchedChain
 import Gofasta.Gen.Facts
 namespace Gofasta.Driver
 open Gofasta.Model
@@ -60,6 +61,27 @@ def runSched (c : Case) : Verdict :=
     | .ret none => "ok:" ++ " ".intercalate (s.wst.out.map toString)
     | .ret (some _) => "!error"
     | _ => "stuck"
+  -- sam variants: two pools (pair alignment, variant calling), the chain model; capacities from the regenerated shape
+  let capOf (fnc ch : String) : Nat :=
+    match Gofasta.Gen.pipes.find? (·.1 == fnc) with
+    | some p => if p.2.1.contains (ch, "n") then threads else 0
+    | none => 0
+  let ccfg : SchedChain.Cfg Nat Nat (Reorder.St Nat) :=
+    { items := List.range n
+      pools := [⟨threads, fun i => .ok i, capOf "sam.Variants" "cPairAlign"⟩, ⟨threads, fun i => .ok i, capOf "sam.Variants" "cVariants"⟩]
+      cap0 := capOf "sam.Variants" "cSR"
+      readFail := if fail == "read" then some (k, 3) else none
+      absorb := schedAbsorb (if fail == "write" || fail == "write-once" then some k else none)
+      finish := fun st => .ok st
+      init := ⟨[], 0, []⟩ }
+  let clen := SchedChain.μ ccfg (SchedChain.init ccfg) + 1
+  let coutcome (seed : Nat) : String :=
+    let s := SchedChain.runSchedule ccfg (lcgList seed clen)
+    match s.main with
+    | .ret none => "ok:" ++ " ".intercalate (s.wst.out.map toString)
+    | .ret (some _) => "!error"
+    | _ => "stuck"
+  let outcome := if c.get "cmd" == "samvariants" then coutcome else outcome
   let s0 := c.nat "schedseed"
   let o1 := outcome s0
   let o2 := outcome (s0 + 1)
